@@ -179,6 +179,7 @@ def check_run(rec, out):
     emitted = {int(e[0]): parse_dd(e[1]) for e in (rec.get("emitted") or [])}
     changes = {int(c["i"]): c for c in rec["changes"]}
     n_obs = int(rec.get("observed_steps", len(points)))
+    resets = set(int(i) for i in (rec.get("resets") or []))  # points handed over by `reset`: a new session starts there
     model = Model()
     cur_obs = max_obs = mean_obs = None
     agg_key = None
@@ -188,6 +189,9 @@ def check_run(rec, out):
                       {"path": rec["path"], "class": rec.get("class"), "points": rec["points"] if i is None else rec["points"][: i + 1]})
 
     for i, (t, v) in enumerate(points):
+        if i in resets:
+            model = Model()
+            agg_key = None
         exp = model.step(t, v)
         if direct:
             out.checked += 1
